@@ -363,6 +363,10 @@ pub struct SteadyCase {
     /// the bar is built with with_elapsed(this many ms): only elapsed() is backdated, the rate is not
     #[serde(default)]
     with_elapsed_ms: u64,
+    /// before the steady progress starts the position stood `.0` steps further on and is set back (a
+    /// backwards seek; `.1`: at the very instant of the update that brought it there) - ignored from then on
+    #[serde(default)]
+    rewound: Option<(u8, bool)>,
 }
 
 fn run_steady(c: &SteadyCase) -> CaseResult {
@@ -380,6 +384,14 @@ fn run_steady(c: &SteadyCase) -> CaseResult {
         clock::advance(Duration::from_millis(7));
         pb.tick();
         pb.reset_eta();
+    }
+    if let Some((ahead, same_instant)) = c.rewound {
+        clock::advance(Duration::from_millis(11));
+        pb.set_position(c.offset + 1 + ahead as u64);
+        if !same_instant {
+            clock::advance(Duration::from_millis(3));
+        }
+        pb.set_position(c.offset);
     }
     let rate = c.rate_per_ms as f64 * 1000.0;
     for (i, g) in c.gaps_ms.iter().enumerate() {
@@ -423,6 +435,8 @@ fn run_steady(c: &SteadyCase) -> CaseResult {
     v.label_if(c.with_elapsed_ms > 0, "built_with_elapsed");
     v.label_if(c.gaps_ms.iter().any(|g| *g >= 60_000), "long_gap");
     v.label_if(c.offset > 1 << 53, "offset_beyond_2_53");
+    v.label_if(matches!(c.rewound, Some((_, true))), "rewound_at_the_instant_of_an_update");
+    v.label_if(matches!(c.rewound, Some((_, false))), "rewound_before_the_steady_phase");
     Ok(v)
 }
 
@@ -435,8 +449,9 @@ fn steady_strategy(tier: Tier) -> BoxedStrategy<SteadyCase> {
         any::<bool>(),
         prop_oneof![3 => Just(0u64), 1 => 1u64..1_000_000, 2 => (40u32..63).prop_map(|k| 1u64 << k)],
         prop_oneof![3 => Just(0u64), 1 => 1u64..100_000, 1 => 100_000u64..100_000_000],
+        proptest::option::weighted(0.3, (0u8..4, any::<bool>())),
     )
-        .prop_map(|(rate_per_ms, gaps_ms, stall, via_inc, offset, with_elapsed_ms)| SteadyCase { rate_per_ms, gaps_ms, stall, via_inc, offset, with_elapsed_ms })
+        .prop_map(|(rate_per_ms, gaps_ms, stall, via_inc, offset, with_elapsed_ms, rewound)| SteadyCase { rate_per_ms, gaps_ms, stall, via_inc, offset, with_elapsed_ms, rewound })
         .boxed()
 }
 
@@ -705,7 +720,7 @@ pub fn property() -> Property {
                 cases: |t| t.pick(12_000, 800_000),
                 run: run_steady,
                 signature: no_signature,
-                essential: &["irregular_cadence", "stall_queried", "long_gap", "offset_beyond_2_53"],
+                essential: &["irregular_cadence", "stall_queried", "long_gap", "offset_beyond_2_53", "rewound_at_the_instant_of_an_update", "rewound_before_the_steady_phase"],
                 workers: w,
                 decode: None,
             }),
